@@ -1,9 +1,10 @@
 """C20 — the CLIENT side of the resource-tracker protocol (which requests joblib sends, and when).
 
-Model: lean/JoblibModel/TrackerClient.lean (composed with Tracker.run); theorems: C20.client_* … in JoblibProofs/C20.lean;
-driver: `C …` requests of Driver/C20.lean.  Called from harness/props/c20.py (`run` / `search`).
+Model: lean/JoblibModel/TrackerClient.lean (`stepOp` / `eof`, composed with `Tracker.step`); theorems: C20.client_tracker_composed,
+client_requests_wellformed, refcount_matches_users, never_deleted_while_held(_partial), extra_reference_released_twice_counterexample,
+eventually_deleted … in JoblibProofs/C20.lean; driver: `C …` requests of Driver/C20.lean.  Called from harness/props/c20.py.
 
-Level (a) — request-level correspondence.  One *program* = one real "main" process (python3-vt, numpy) holding real
+Request-level correspondence.  One *program* = one real "main" process (python3-vt, numpy) holding real
 `Parallel` objects (loky and multiprocessing backends), a real resource tracker started by it (`ensure_running`), and
 stand-in worker processes that share the tracker pipe exactly as loky's workers do.  No task is ever submitted (loky
 therefore starts no worker of its own): the program drives the code that decides about tracker requests directly —
@@ -13,11 +14,11 @@ therefore starts no worker of its own): the program drives the code that decides
 `MemmappingPool` creation/terminate, interpreter exit (atexit callbacks), SIGKILL of workers and of the main process.
 Interception: `ResourceTracker._send` is wrapped in every process (the request is logged, then really sent; the real
 tracker runs).  After every operation the tracker is synchronised (sentinel) and compared with the Lean model:
-  status (ok / skip / loadfail), the request sequence (paths mapped to symbolic names), every folder/file on disk.
+  status (ok / skip / loadfail), the request sequence (paths mapped to symbolic names), every folder/file on disk,
+  and the model's own monitor (`bad`: files that left the disk while in use; `dup`: a clean-up released an extra
+  reference that was not held) against what the oracle saw.
 Independent oracle (no model): a file some live worker holds a memmap of exists; the harness's own files are never
 touched; after the last process is gone nothing is left under the temp root.
-
-Level (b) — end to end: harness/c20_client_e2e.py (real workers, real tasks).
 """
 
 from __future__ import annotations
@@ -339,7 +340,8 @@ class Run:
         self.sync()
         creqs = [self.canon.request(r) for r in reqs]
         folders, files = self.canon.disk()
-        self.steps.append(dict(op=op, status=status, reqs=creqs, folders=folders, files=files))
+        held = sorted({self.canon.file(h["filename"]) for h in self.holdings if self.children[h["child"]]["alive"]})
+        self.steps.append(dict(op=op, status=status, reqs=creqs, folders=folders, files=files, held=held))
         self.oracle(op)
 
     def oracle(self, op):
@@ -477,6 +479,12 @@ def judge(run, replies, res, idx):
     if replies[0].strip() != "ok":
         raise core.InfraError("c20 client: driver out of step")
     nontrivial = False
+    # what the oracle saw: (step, file) of every "deleted while a live worker maps it", and whether it classified it as F45
+    seen = {}
+    for sig, detail in run.fails:
+        if sig.startswith("client:deleted-while-held"):
+            seen.setdefault(detail["step"], {})[detail["file"]] = sig == KNOWN_SIG
+    flagged = set()
     for i, st in enumerate(run.steps):
         m = _parse_step(replies[1 + i])
         res.evaluations += 1
@@ -487,6 +495,20 @@ def judge(run, replies, res, idx):
             res.diverge("client-step", desc, dict(step=i, op=st["op"], **{k: v[0] for k, v in diff.items()}),
                         dict(step=i, **{k: v[1] for k, v in diff.items()}))
             break
+        # the model's monitor against the oracle: what the oracle saw deleted under a live memmap the model must have
+        # recorded at the same step (with `dup` set when the oracle counted two releases); what the model recorded and
+        # a live worker still maps afterwards the oracle must have seen
+        o_now = seen.get(i, {})
+        flagged |= set(o_now)
+        missed = sorted(f for f in o_now if f not in m["bad"])
+        unseen = sorted(f for f in m["bad"] if f in st.get("held", []) and f not in flagged)
+        nodup = sorted(f for f, known in o_now.items() if known and not m["dup"])
+        if missed or unseen or nodup:
+            res.diverge("client-monitor", desc, dict(step=i, op=st["op"], oracle=sorted(o_now), held=st.get("held", [])),
+                        dict(step=i, bad=m["bad"], dup=m["dup"], missed=missed, unseen=unseen, nodup=nodup))
+            break
+        if m["bad"]:
+            res.count("model-monitor:deleted-while-in-use", len(m["bad"]))
         res.count("cop:" + st["op"]["op"] + ("" if st["status"] == "ok" else ":" + st["status"]))
         for r in st["reqs"]:
             res.count("creq:" + r.split(":")[0] + ":" + r.rsplit(":", 1)[1])
